@@ -27,6 +27,9 @@ CHECKS = {
  'C07': ('exploration',
          "Held on the executions explored: a with-items task over 0..7 items (actions or sub-workflows, one or two collections), concurrency absent / 1..n+1 / expression, per-item success / error / cancel, optional retry, item results held by the harness and delivered in every order (n! for small n) under several transaction orders; invariants evaluated after every commit (per index at most one accepted-or-unfinished child, indexes in range, unfinished children <= concurrency, no completion before every item is accepted) and at completion (state by the statement, published result in item order, empty list succeeds without children).",
          "runtime monitoring: structural invariants of child-execution rows checked at every commit (quiescent points of the engine's own transactions) + result-order oracle, with harness-controlled completion orders"),
+ 'C08': ('exploration',
+         "Held on the executions explored: a task carrying one policy between a predecessor and a successor (also as a join fed by two branches; synchronous and asynchronous actions): retry (count 0..3, delay 0..2, break-on / continue-on, every per-attempt outcome sequence), wait-before, wait-after, timeout (result in time, or withheld past the timeout and delivered late), fail-on, pause-before; values as literals / YAQL / Jinja, task level and task-defaults, both schedulers, fifo / lifo / random unit orders on the virtual clock; oracle: arithmetic of the statement on attempts, gaps between attempts, first start, successor creation, final states and messages.",
+         "runtime monitoring: offline arithmetic checker over recorded ACTION_RUN events, virtual-clock times and row history, under schedule perturbation and harness-controlled timer/result order"),
  'C10': ('exploration',
          "Held on the executions explored: pause injected at unit boundaries of generated runs (root or nested execution), everything in flight drained while PAUSED, resume, drain; monitors: no task row inserted while the execution is and stays PAUSED, acknowledged pause => PAUSED (with sub-workflows), normal form equal to the never-paused run on the deterministic fragment.",
          "runtime monitoring: no-insert-while-paused trace monitor + metamorphic equality with the unpaused run under pause injection at every unit boundary"),
